@@ -213,17 +213,18 @@ example : (kwKeys ([("sync", .bool true), ("x", .tup [.int 1, .int 2]), ("timeou
 `WRun m cap ro ls w`: `w` is the state after the steps `ls` (callers' `put` / `notify`, the tick
 thread's `process k` = `_checkCommandsToApply` dequeuing up to `k` commands and `poll` = read the pipe
 when it is readable), in ANY order, from the empty queue (limit `m`) and the empty pipe of capacity
-`cap ≥ 1`; `ro = false` is the code as it is (the pipe is read until empty), `ro = true` the variant
-with a single `os.read(fd, 1024)` — the theorems hold for both. -/
+`cap ≥ 1`; `ro = 0` is the code as it is (the pipe is read until empty), `ro = n > 0` a variant with
+a single `os.read(fd, n)` per notification — the theorems hold for every `ro`, and for every answer of
+the kernel to a write into a pipe that is neither empty nor full (`notify acc`). -/
 
-def WRun (m cap : Nat) (ro : Bool) (ls : List WLabel) (w : Wake) : Prop := ((Wake.init m cap ro).run ls).1 = w
+def WRun (m cap : Nat) (ro : Nat) (ls : List WLabel) (w : Wake) : Prop := ((Wake.init m cap ro).run ls).1 = w
 
 /-- (a) no step fails — in particular `notify` never raises, however far the tick thread is behind;
 a `put` on a full queue is the only non-`ok` outcome (QUEUE_FULL, reported through the callback). -/
-theorem pipe_no_step_fails (m cap : Nat) (ro : Bool) (ls : List WLabel) :
+theorem pipe_no_step_fails (m cap : Nat) (ro : Nat) (ls : List WLabel) :
     ∀ o ∈ ((Wake.init m cap ro).run ls).2, o ≠ WOut.error := run_no_error _ ls
 
-theorem pipe_notify_never_fails (w : Wake) : (w.step .notify).2 = .ok := by
+theorem pipe_notify_never_fails (w : Wake) (acc : Bool) : (w.step (.notify acc)).2 = .ok := by
   simp only [Wake.step, pipeNotify]; split <;> rfl
 
 /-- the unrepaired `notify` fails exactly when the pipe is full (witness D67) -/
@@ -272,14 +273,14 @@ theorem pipe_drain_process_empties (w : Wake) (k : Nat) (hk : w.queue.items.leng
 /-- non-vacuity: 3 × cap notifies against a pipe of capacity 2 while the tick thread is busy, then a
 poll and a complete processing: nothing fails, the pipe saturates at 2, the tick thread may sleep and
 the queue is empty. -/
-example : ((Wake.init 10 2 false).run
-      [.put 1, .notify, .put 2, .notify, .put 3, .notify, .put 4, .notify, .put 5, .notify, .put 6, .notify]).2
+example : ((Wake.init 10 2 0).run
+      [.put 1, .notify true, .put 2, .notify true, .put 3, .notify true, .put 4, .notify true, .put 5, .notify true, .put 6, .notify true]).2
       = [.ok, .ok, .ok, .ok, .ok, .ok, .ok, .ok, .ok, .ok, .ok, .ok] ∧
-    ((Wake.init 10 2 false).run
-      [.put 1, .notify, .put 2, .notify, .put 3, .notify, .put 4, .notify, .put 5, .notify, .put 6, .notify]).1.pipe = 2 ∧
-    ((Wake.init 10 2 false).run
-      [.put 1, .notify, .put 2, .notify, .put 3, .notify, .poll, .process 9]).1.sleeps = true ∧
-    ((Wake.init 10 2 false).run
-      [.put 1, .notify, .put 2, .notify, .put 3, .notify, .poll, .process 9]).1.queue.items = [] := by decide
+    ((Wake.init 10 2 0).run
+      [.put 1, .notify true, .put 2, .notify true, .put 3, .notify true, .put 4, .notify true, .put 5, .notify true, .put 6, .notify true]).1.pipe = 2 ∧
+    ((Wake.init 10 2 0).run
+      [.put 1, .notify true, .put 2, .notify true, .put 3, .notify true, .poll, .process 9]).1.sleeps = true ∧
+    ((Wake.init 10 2 0).run
+      [.put 1, .notify true, .put 2, .notify true, .put 3, .notify true, .poll, .process 9]).1.queue.items = [] := by decide
 
 end PSO.C19
